@@ -257,12 +257,12 @@ func runConc(phase string, i int, rng *rand.Rand) (res worker.Result) {
 		for !stop.Load() {
 			b, err := os.ReadFile(path)
 			if err != nil {
-				runtime.Gosched()
+				time.Sleep(20 * time.Microsecond) // perturbation only
 				continue
 			}
 			reads++
 			if string(b) == last {
-				runtime.Gosched()
+				time.Sleep(20 * time.Microsecond)
 				continue
 			}
 			last = string(b)
